@@ -124,9 +124,10 @@ theorem foldl_upd_find : ∀ (es : List (Name × Lnk)) (m0 : Map) (k : Name), (e
 
 /-- **basic → HAMT conversion preserves the entries**: when `switchToSharding` succeeds, the HAMT
 directory is well-formed, canonical and denotes the map of the basic directory's links -/
-theorem switchToSharding_entries (h : Name → List Byte) (g : Globals) (b : Basic) (hd : Hamt)
-    (hn : (b.links.map (·.1)).Nodup) (hs : switchToSharding h g b = some hd) (ok : DigitsOK (hd.dg h)) :
-    hd.Inv h ∧ ∀ k, hd.abs h k = b.getLink k := by
+theorem switchToSharding_entries (h : Name → List Byte) (g : Globals) (U : Name → Prop) (b : Basic) (hd : Hamt)
+    (hn : (b.links.map (·.1)).Nodup) (hu : ∀ e ∈ b.links, U e.1)
+    (hs : switchToSharding h g b = some hd) (ok : DigitsOK U (hd.dg h)) :
+    hd.Inv h ∧ Trie.AllKeys U hd.shard ∧ ∀ k, hd.abs h k = b.getLink k := by
   unfold switchToSharding at hs
   cases hnew : Hamt.new g (hamtOpts g b) with
   | none => simp [hnew] at hs
@@ -137,7 +138,8 @@ theorem switchToSharding_entries (h : Name → List Byte) (g : Globals) (b : Bas
       split at hnew
       · simp at hnew
       · split at hnew <;> simp at hnew <;> (rw [← hnew.2])
-    have key : ∀ (es : List (Name × Lnk)) (hd1 : Hamt), hd1.Inv h → hd1.width = hd.width →
+    have key : ∀ (es : List (Name × Lnk)) (hd1 : Hamt), hd1.Inv h → Trie.AllKeys U hd1.shard → (∀ e ∈ es, U e.1) →
+        hd1.width = hd.width →
         ∀ hdf, es.foldl (fun acc e =>
           match acc with
           | none => none
@@ -145,25 +147,27 @@ theorem switchToSharding_entries (h : Name → List Byte) (g : Globals) (b : Bas
             match hd.swapTop h e.1 (some e.2) with
             | (t, .ok _) => some { hd with shard := t, total := hd.total + 1 }
             | _ => none) (some hd1) = some hdf →
-        hdf.Inv h ∧ hdf.width = hd.width ∧ hdf.abs h = es.foldl (fun m e => upd m e.1 (some e.2)) (hd1.abs h) := by
+        hdf.Inv h ∧ Trie.AllKeys U hdf.shard ∧ hdf.width = hd.width ∧
+          hdf.abs h = es.foldl (fun m e => upd m e.1 (some e.2)) (hd1.abs h) := by
       intro es
       induction es with
-      | nil => intro hd1 hi hw hdf hf; simp only [List.foldl_nil, Option.some.injEq] at hf; subst hf; exact ⟨hi, hw, rfl⟩
+      | nil => intro hd1 hi hk _ hw hdf hf; simp only [List.foldl_nil, Option.some.injEq] at hf; subst hf; exact ⟨hi, hk, hw, rfl⟩
       | cons e es ih =>
-        intro hd1 hi hw hdf hf
+        intro hd1 hi hk hue hw hdf hf
         simp only [List.foldl_cons] at hf
         have hdg : hd1.dg h = hd.dg h := by unfold Hamt.dg; rw [hw]
-        have sp := Hamt.swapTop_spec h hd1 e.1 (some e.2) hi (by rw [hdg]; exact ok)
+        have sp := Hamt.swapTop_spec h U hd1 e.1 (some e.2) hi (hue e (by simp)) hk (by rw [hdg]; exact ok)
         cases hx : hd1.swapTop h e.1 (some e.2) with
         | mk t res =>
           rw [hx] at sp hf
           cases res with
           | ok old =>
             simp only at sp hf
-            have := ih { hd1 with shard := t, total := hd1.total + 1 } ⟨sp.1, sp.2.1⟩ hw hdf hf
-            refine ⟨this.1, this.2.1, ?_⟩
-            have e1 : Hamt.abs h { hd1 with shard := t, total := hd1.total + 1 } = upd (hd1.abs h) e.1 (some e.2) := sp.2.2.1
-            rw [this.2.2, e1]; rfl
+            have := ih { hd1 with shard := t, total := hd1.total + 1 } ⟨sp.1, sp.2.1⟩ sp.2.2.1
+              (fun x hx => hue x (by simp [hx])) hw hdf hf
+            refine ⟨this.1, this.2.1, this.2.2.1, ?_⟩
+            have e1 : Hamt.abs h { hd1 with shard := t, total := hd1.total + 1 } = upd (hd1.abs h) e.1 (some e.2) := sp.2.2.2.1
+            rw [this.2.2.2, e1]; rfl
           | notfound => simp at sp
           | toodeep => simp at sp
     -- the fold can only return `some` if it started from `some`
@@ -198,11 +202,12 @@ theorem switchToSharding_entries (h : Name → List Byte) (g : Globals) (b : Bas
             | cons e es ih => simpa [List.foldl_cons] using ih
           rw [stay] at hf; cases hf
     have hwid := hw0 _ hd hs
-    obtain ⟨hinv, _, habs⟩ := key b.sortedLinks hd0 (by unfold Hamt.Inv; rw [hsh0]; exact ⟨trivial, trivial⟩) hwid.symm hd hs
-    refine ⟨hinv, ?_⟩
+    have hperm : b.sortedLinks.Perm b.links := List.mergeSort_perm _ _
+    obtain ⟨hinv, hkeys, _, habs⟩ := key b.sortedLinks hd0 (by unfold Hamt.Inv; rw [hsh0]; exact ⟨trivial, trivial⟩)
+      (by rw [hsh0]; trivial) (fun e he => hu e (hperm.mem_iff.1 he)) hwid.symm hd hs
+    refine ⟨hinv, hkeys, ?_⟩
     intro k
     rw [habs]
-    have hperm : b.sortedLinks.Perm b.links := List.mergeSort_perm _ _
     have hns : (b.sortedLinks.map (·.1)).Nodup := (hperm.map _).nodup_iff.2 hn
     rw [foldl_upd_find _ _ k hns]
     have h0 : hd0.abs h k = none := by
